@@ -343,8 +343,27 @@ func VerifC07_SetDoorPasscodes() {
 	d, u := c07Driver()
 	id := nondetU32("id")
 	door := nondetU8("door")
-	_, err := u.SetDoorPasscodes(id, door, nondetU32("c1"), nondetU32("c2"), nondetU32("c3"), nondetU32("c4"), nondetU32("c5"))
+	// 0..6 passcodes over all 32-bit values
+	n := nondetEnum("count", 7)
+	codes := make([]uint32, n)
+	for i := range codes {
+		codes[i] = nondetU32(keyTag("c", i+1))
+	}
+	_, err := u.SetDoorPasscodes(id, door, codes...)
 	c07Check(d, err, id == 0 || door < 1 || door > 4, "SetDoorPasscodes")
+	if d.calls == 1 && len(d.req) == 64 {
+		// passcodes above 999999 and passcodes beyond the fourth are disabled (sent as 0), each in its own slot
+		for k := 0; k < 4; k++ {
+			want := uint32(0)
+			if k < n && codes[k] <= 999999 {
+				want = codes[k]
+			}
+			verifAssert(specGet32(d.req, 12+4*k) == want, "SetDoorPasscodes: each passcode is sent in its own slot, 0 when above 999999 or absent")
+		}
+		for i := 28; i < 64; i++ {
+			verifAssert(d.req[i] == 0, "SetDoorPasscodes: nothing is sent beyond the fourth passcode")
+		}
+	}
 }
 
 // ---- SetTimeProfile
